@@ -101,6 +101,10 @@ Definition vfs_destroy (s : vstate) : vstate :=
 Definition vfs_open_enosys (s : vstate) : bool := v_no_open s.
 Definition vfs_opendir_enosys (s : vstate) : bool := v_no_opendir s.
 
+(* feature async-io: Vfs::async_open (src/api/vfs/async_io.rs) repeats the no-open test of Vfs::open; there is no
+   async opendir.  PassthroughFs::async_open / async_create call the sync methods. *)
+Definition vfs_async_open_enosys (s : vstate) : bool := v_no_open s.
+
 (* ------------------------------------------------------------------ PassthroughFs / OverlayFs *)
 Inductive cache_policy := CacheAuto | CacheAlways | CacheNever | CacheMetadata.
 
@@ -201,47 +205,123 @@ Definition tri (visible v : bool) : option bool := if visible then Some v else N
 Definition tri_eqb (a b : option bool) : bool :=
   match a, b with Some x, Some y => Bool.eqb x y | None, None => true | _, _ => false end.
 
+(* twin entry points that consult the same switches: RELEASE / RELEASEDIR (twins of OPEN / OPENDIR), CREATE
+   (twin of OPEN: handle or not, writeback flag rewriting, kill-priv when it truncates an existing file) and
+   SETATTR(size, KILL_SUIDGID) (twin of the kill-priv OPEN) *)
+Inductive uprobe := UOk | UEnosys | UOther.
+Definition uprobe_eqb (a b : uprobe) : bool :=
+  match a, b with UOk, UOk | UEnosys, UEnosys | UOther, UOther => true | _, _ => false end.
+
+Record twins := mkW {
+  w_release : uprobe; w_releasedir : uprobe;
+  w_create_handle : bool;            (* CREATE returns a handle *)
+  w_create_wb : option bool;         (* flags of the descriptor CREATE opened were rewritten (visible with a handle) *)
+  w_create_killpriv : option bool;   (* CREATE(O_TRUNC, kill flag) on an existing setuid file cleared the bit *)
+  w_setattr_killpriv : option bool   (* SETATTR(size, KILL_SUIDGID) cleared the bit *)
+}.
+
+(* PassthroughFs: release / releasedir / create / setattr read the same AtomicBools as open / opendir *)
+Definition pt_twins (t : toggles) : twins :=
+  mkW (if t_no_open t then UEnosys else UOk) (if t_no_opendir t then UEnosys else UOk)
+      (negb (t_no_open t)) (tri (negb (t_no_open t)) (t_writeback t))
+      (Some (t_killpriv_v2 t)) (Some (t_killpriv_v2 t)).
+
+(* OverlayFs: create() refuses an existing name (EEXIST), so the kill-priv create is not observable;
+   setattr is passed to the layer, whose kill-priv switch is never set *)
+Definition ovl_twins (t : toggles) : twins :=
+  mkW (if t_no_open t then UEnosys else UOk) (if t_no_opendir t then UEnosys else UOk)
+      (negb (t_no_open t)) (tri (negb (t_no_open t)) (t_writeback t))
+      None (Some false).
+
+(* Vfs: release / releasedir / create / setattr are forwarded without consulting the Vfs's own switches;
+   a RELEASE(handle 0) after the Vfs itself refused the OPEN reaches a backend that never opened anything *)
+Definition vfs_twins (s : vstate) (t : toggles) : twins :=
+  let w := pt_twins t in
+  mkW (match w_release w with UOk => if vfs_open_enosys s then UOther else UOk | x => x end)
+      (match w_releasedir w with UOk => if vfs_opendir_enosys s then UOther else UOk | x => x end)
+      (w_create_handle w) (w_create_wb w) (w_create_killpriv w) (w_setattr_killpriv w).
+
+Definition twins_eqb (a b : twins) : bool :=
+  uprobe_eqb (w_release a) (w_release b) && uprobe_eqb (w_releasedir a) (w_releasedir b) &&
+  Bool.eqb (w_create_handle a) (w_create_handle b) && tri_eqb (w_create_wb a) (w_create_wb b) &&
+  tri_eqb (w_create_killpriv a) (w_create_killpriv b) && tri_eqb (w_setattr_killpriv a) (w_setattr_killpriv b).
+
+(* PassthroughFs puts FUSE_ATTR_DAX on an entry only if dax_file_size is configured and the file is at least
+   that large; [dax_applies] says whether that holds for the probed file *)
+Definition pt_behaviour_d (dax_applies : bool) (c : lcfg) (t : toggles) : behaviour :=
+  mkB (t_no_open t) (t_no_opendir t) (t_writeback t) (t_killpriv_v2 t) (t_perfile_dax t && dax_applies).
+
 Record round := mkR { r_init : ires; r_open : probe; r_opendir : probe;
-                      r_wb : option bool; r_kp : option bool; r_dax : bool }.
+                      r_wb : option bool; r_kp : option bool; r_dax : bool; r_twins : twins }.
 Definition ires_eqb (a b : ires) : bool :=
   match a, b with IErr x, IErr y | IOk x, IOk y => x =? y | _, _ => false end.
 Definition round_eqb (a b : round) : bool :=
   ires_eqb (r_init a) (r_init b) && probe_eqb (r_open a) (r_open b) && probe_eqb (r_opendir a) (r_opendir b) &&
-  tri_eqb (r_wb a) (r_wb b) && tri_eqb (r_kp a) (r_kp b) && Bool.eqb (r_dax a) (r_dax b).
+  tri_eqb (r_wb a) (r_wb b) && tri_eqb (r_kp a) (r_kp b) && Bool.eqb (r_dax a) (r_dax b) &&
+  twins_eqb (r_twins a) (r_twins b).
 
-Definition round_of (out : ires) (b : behaviour) : round :=
+Definition round_of (out : ires) (b : behaviour) (w : twins) : round :=
   mkR out (probe_of (b_open_enosys b)) (probe_of (b_opendir_enosys b))
-      (tri (negb (b_open_enosys b)) (b_writeback_flags b)) (tri (negb (b_open_enosys b)) (b_killpriv b)) (b_dax b).
+      (tri (negb (b_open_enosys b)) (b_writeback_flags b)) (tri (negb (b_open_enosys b)) (b_killpriv b)) (b_dax b) w.
 
-(* (first round, answer of the repeated init, second round) *)
-Definition pt_case (p : cache_policy) (c0 : lcfg) (cap1 cap2 : N) : round * ires * round :=
+(* (first round, answer of the repeated init, second round).
+   ord = false:  init(cap1); probes; init(cap1) [repeated]; destroy; init(cap2); probes
+   ord = true :  destroy; init(cap1); probes; destroy; destroy; init(cap2); init(cap2) [repeated]; probes *)
+Definition pt_case (ord dax_applies : bool) (p : cache_policy) (c0 : lcfg) (cap1 cap2 : N) : round * ires * round :=
   let c := pt_new p c0 in
-  let '(o1, t1) := pt_init c toggles_off cap1 in
-  let '(or, tr) := pt_init c t1 cap1 in
-  let '(o2, t2) := pt_init c (layer_destroy tr) cap2 in
-  (round_of (IOk o1) (pt_behaviour c t1), IOk or, round_of (IOk o2) (pt_behaviour c t2)).
+  let '(o1, t1) := pt_init c (layer_destroy toggles_off) cap1 in
+  let '(or1, tr1) := pt_init c t1 cap1 in
+  let tm := if ord then layer_destroy (layer_destroy t1) else layer_destroy tr1 in
+  let '(o2, t2) := pt_init c tm cap2 in
+  let '(or2, tr2) := pt_init c t2 cap2 in
+  let te := if ord then tr2 else t2 in
+  (round_of (IOk o1) (pt_behaviour_d dax_applies c t1) (pt_twins t1), IOk (if ord then or2 else or1),
+   round_of (IOk o2) (pt_behaviour_d dax_applies c te) (pt_twins te)).
 
-Definition ovl_case (c : lcfg) (cap1 cap2 : N) : round * ires * round :=
-  let '(o1, t1) := ovl_init c toggles_off cap1 in
-  let '(or, tr) := ovl_init c t1 cap1 in
-  let '(o2, t2) := ovl_init c (layer_destroy tr) cap2 in
-  (round_of (IOk o1) (ovl_behaviour c t1), IOk or, round_of (IOk o2) (ovl_behaviour c t2)).
+Definition ovl_case (ord : bool) (c : lcfg) (cap1 cap2 : N) : round * ires * round :=
+  let '(o1, t1) := ovl_init c (layer_destroy toggles_off) cap1 in
+  let '(or1, tr1) := ovl_init c t1 cap1 in
+  let tm := if ord then layer_destroy (layer_destroy t1) else layer_destroy tr1 in
+  let '(o2, t2) := ovl_init c tm cap2 in
+  let '(or2, tr2) := ovl_init c t2 cap2 in
+  let te := if ord then tr2 else t2 in
+  (round_of (IOk o1) (ovl_behaviour c t1) (ovl_twins t1), IOk (if ord then or2 else or1),
+   round_of (IOk o2) (ovl_behaviour c te) (ovl_twins te)).
 
-(* a Vfs with one PassthroughFs backend (do_import = false, all switches off, cache=always) at "/" *)
+(* a Vfs with one PassthroughFs backend (do_import = false, all switches off, cache=always) at "/".  Whether the
+   backend is mounted before the first INIT (Vfs::init initialises it) or after it (Vfs::mount initialises it
+   with the stored out_opts) makes no difference: both hand it [vfs_backend_word]. *)
 Definition under_vfs : lcfg := mkC false false false false false false.
 Definition vfs_behaviour (s : vstate) (b : behaviour) : behaviour :=
   mkB (vfs_open_enosys s || b_open_enosys b) (vfs_opendir_enosys s || b_opendir_enosys b)
       (b_writeback_flags b) (b_killpriv b) (b_dax b).
 
-Definition vfs_case (s0 : vstate) (cap1 cap2 : N) : round * ires * round :=
-  let '(ob1, t1) := pt_init under_vfs toggles_off (vfs_backend_word s0 cap1) in
-  let '(r1, s1) := vfs_init s0 cap1 [None] in
-  let '(rr, sr) := vfs_init s1 cap1 [None] in
-  let sd := vfs_destroy sr in
+Definition vfs_case (ord : bool) (s0 : vstate) (cap1 cap2 : N) : round * ires * round :=
+  let s0' := if ord then vfs_destroy s0 else s0 in
+  let '(ob1, t1) := pt_init under_vfs toggles_off (vfs_backend_word s0' cap1) in
+  let '(r1, s1) := vfs_init s0' cap1 [None] in
+  let '(rr1, sr1) := vfs_init s1 cap1 [None] in
+  let sd := if ord then vfs_destroy (vfs_destroy s1) else vfs_destroy sr1 in
   let '(ob2, t2) := pt_init under_vfs (layer_destroy t1) (vfs_backend_word sd cap2) in
   let '(r2, s2) := vfs_init sd cap2 [None] in
-  (round_of r1 (vfs_behaviour s1 (pt_behaviour under_vfs t1)), rr,
-   round_of r2 (vfs_behaviour s2 (pt_behaviour under_vfs t2))).
+  let '(rr2, sr2) := vfs_init s2 cap2 [None] in
+  let se := if ord then sr2 else s2 in
+  (round_of r1 (vfs_behaviour s1 (pt_behaviour under_vfs t1)) (vfs_twins s1 t1), if ord then rr2 else rr1,
+   round_of r2 (vfs_behaviour se (pt_behaviour under_vfs t2)) (vfs_twins se t2)).
+
+(* the same Vfs with a second backend whose init fails (EIO) during the first INIT: the passthrough backend (first
+   superblock) is initialised, the new options are stored, the Vfs stays uninitialised; the next INIT is accepted.
+   init(cap1) [fails]; probes; init(cap1) [repeated, succeeds]; destroy; init(cap2); probes *)
+Definition vfs_fail_case (s0 : vstate) (cap1 cap2 : N) : round * ires * round :=
+  let '(ob1, t1) := pt_init under_vfs toggles_off (vfs_backend_word s0 cap1) in
+  let '(r1, s1) := vfs_init s0 cap1 [None; Some 5] in
+  let '(obr, tr) := pt_init under_vfs t1 (vfs_backend_word s1 cap1) in
+  let '(rr, sr) := vfs_init s1 cap1 [None; None] in
+  let sd := vfs_destroy sr in
+  let '(ob2, t2) := pt_init under_vfs (layer_destroy tr) (vfs_backend_word sd cap2) in
+  let '(r2, s2) := vfs_init sd cap2 [None; None] in
+  (round_of r1 (vfs_behaviour s1 (pt_behaviour under_vfs t1)) (vfs_twins s1 t1), rr,
+   round_of r2 (vfs_behaviour s2 (pt_behaviour under_vfs t2)) (vfs_twins s2 t2)).
 
 Definition case_eqb (a b : round * ires * round) : bool :=
   let '(a1, ar, a2) := a in let '(b1, br, b2) := b in
@@ -251,6 +331,8 @@ Definition lcfg_of_bits (sw : N) : lcfg :=
   mkC (N.testbit sw 0) (N.testbit sw 1) (N.testbit sw 2) (N.testbit sw 3) (N.testbit sw 4) (N.testbit sw 5).
 Definition policy_of_bits (sw : N) : cache_policy :=
   match N.land (N.shiftr sw 5) 3 with 1 => CacheAlways | 2 => CacheNever | 3 => CacheMetadata | _ => CacheAuto end.
+(* passthrough bits 7-8: dax_file_size = Some(0) | None | Some(2^40); the probed file has 3 bytes *)
+Definition dax_applies_of_bits (sw : N) : bool := N.land (N.shiftr sw 7) 3 =? 0.
 Definition vstate_of_bits (sw : N) (out_opts : option N) : vstate :=
   vfs_new (N.testbit sw 0) (N.testbit sw 1) (N.testbit sw 2) (N.testbit sw 3)
           (match out_opts with Some o => o | None => vfs_default_out end).
